@@ -5,7 +5,7 @@ import Driver.Util
 Line-protocol handler for property C16.
 
 Trees travel as space-separated token lists inside one TAB field:
-  value   := `n` | `T` | `F` | `i<int>` | `d<0|1>:<mant>:<exp>` | `s<hex>`
+  value   := `n` | `T` | `F` | `i<int>` | `d<0|1>:<m>:<e>` (exact float64 = ± m·2^e) | `s<hex>`
            | `[` value* `]` | `{` (`k<hex>` value)* `}`        (`{` = `{m`; struct literal: `{s`)
   typeid  := `t<arrayDim>:<mapDim>` base
   base    := `c` (scalar) | `u` (untyped map) | `x` (unknown) | `(` (`f<hex>` typeid)* `)`
@@ -150,7 +150,7 @@ def showLit : Lit → String
   | .bool true => "T"
   | .bool false => "F"
   | .int i => "i" ++ showInt i
-  | .flt f => "d" ++ (if f.neg then "1" else "0") ++ ":" ++ toString f.mant ++ ":" ++ showInt f.exp
+  | .flt f => "d" ++ (if f.neg then "1" else "0") ++ ":" ++ toString f.m ++ ":" ++ showInt f.e
   | .str s => "s" ++ hexOfBytes s
 
 mutual
@@ -211,7 +211,8 @@ def handle (op : String) (args : List String) : Option String :=
     pure (boolStr (wt t.base t.arrayDim t.mapDim e) ++ " " ++ boolStr (intsOk e))
   | "fltint", [f] => do
     let f ← parseFlt f
-    pure (if f.printsAsInt then "int " ++ showInt f.intVal else "float")
+    pure ("text=" ++ (if f.textAsInt then "int " ++ showInt f.intVal else "float")
+      ++ " json=" ++ (if f.jsonAsInt then "int " ++ showInt f.intVal else "float"))
   | _, _ => none
 
 end Driver.C16
